@@ -139,15 +139,21 @@ CHECKS = {
         'DESIGN.md section 5 C02',
     ),
     'C03': (
-        'Rocq proof over the denotation of operator expressions (scoping irrelevance, per-operator coherence, sequencing) + differential execution of the real composition',
+        'Rocq proof over the denotation of operator expressions (scoping irrelevance, per-operator coherence, sequencing), of the '
+        'task graph they denote and of its compilation (end to end with the C01 compiler theorem) + differential execution of the real composition',
         'PARTIAL. Model/C03.v is the denotation of expressions over the decorated operators (mapper / apply / train / label in '
         'every combination, stateful or not) in terms of the three coherent segments. Proved: any nesting or explicit scoping of '
         'the same operator sequence denotes the same chains; each operator applies its actor with exactly the state fitted on the '
         'train features and labels produced by the preceding path (labels after its own label actor) and passes the freshly '
         'fitted actor output downstream; evaluation is sequential and exactly the stateful apply-path actors persist a state. '
-        'Correspondence: random expressions and all parenthesisations of short ones are built with the real wrap decorators '
-        'and >>, composed, compiled and executed in train mode and (in a separate expansion) apply mode.',
-        BASE_NOTE + 'MapReduce, debug operators and user-written operators are not modelled; the graph-level composition code is tied by execution only.',
+        'Model/C03Graph.v is the task graph an expression denotes (worker groups with trained fork and applied members on the '
+        'label / apply / train paths); proved: its direct evaluation (C01 geval) at the three tails equals the expression '
+        'denotation (C03_graph_denotation), it is a well-formed compiler input, and - with C01_compile_correct - for every '
+        'expression and every visiting order the compiled symbol table evaluates at the apply and train tails to the '
+        'expression denotation (C03_pipeline_compiles). Correspondence: random expressions and all parenthesisations of short '
+        'ones, built with the real wrap decorators or written against the public composition API (partial Trunk.extend, taps), '
+        'composed, compiled and executed in train mode and (in a separate expansion) apply mode.',
+        BASE_NOTE + 'MapReduce and the debug operators are not modelled; the graph model is tied to the real graph-building code through the executed behaviour (real execution = den = evaluation of the graph model), not by comparing graphs.',
         'DESIGN.md section 5 C03',
     ),
     'C04': (
@@ -182,11 +188,15 @@ CHECKS = {
         'Rocq proof of structural equality on the skeleton of DSL objects (rose-tree reflection) + pairwise differential correspondence incl. cross-process pickling',
         'Theorems (Properties/C08.v) for objects of any size and nesting: the implementation equality (after the structural-equality '
         'fix) is exactly structural identity, equal objects hash equal, set/dict lookups never confuse different objects and always '
-        'find identical ones, identity survives the pickle protocol. Correspondence: pairs built twice / differing in exactly one '
-        'leaf, including literals whose Python hashes collide (-1/-2, 0/2^61-1, 1/2^61), with unrelated objects created first: ==, '
-        'hash, set size, dict lookup, pickling in-process and into a fresh interpreter with another hash seed, and cached attribute '
-        'access returning each statement its own parts.',
-        BASE_NOTE + 'Kinds and schemas are compared through the objects embedding them; accidental 64-bit hash collisions of unequal objects are allowed.',
+        'find identical ones, identity survives the pickle protocol; the ALGORITHM of `identical` (same class, equal hashes, '
+        'element-wise equal content, recursively) is structural identity for EVERY hash function (C08_algorithm), whereas equality by '
+        'hash alone - the pre-fix code - is refuted with hash(-1) = hash(-2) (C08_hash_only_refuted). Correspondence: pairs built '
+        'twice / differing in exactly one leaf, including literals whose Python hashes collide (-1/-2, 0/2^61-1, 1/2^61) and literals '
+        'that Python calls equal but that have another kind (1/1.0/True, 0/0.0/False), with unrelated objects created first: ==, '
+        'hash, set size, dict lookup, pickling in-process and into a fresh interpreter with another hash seed, cached attribute '
+        'access returning each statement its own parts; the primitive kind singletons instantiated in random orders in fresh '
+        'interpreters and compared pairwise (also inside Array / Field and after pickling; oracle only).',
+        BASE_NOTE + 'Schemas are compared through the objects embedding them; accidental 64-bit hash collisions of unequal objects are allowed.',
         'DESIGN.md section 5 C08',
     ),
     'C09': (
